@@ -606,8 +606,9 @@ def cumprod(x, axis=None, out=None, out_like=None, sizing='optimal', method='raw
         x = Fxp(x)
 
     signed = x.signed
-    n_word = x.size * x.n_word
-    n_frac = x.size * x.n_frac
+    # every partial product is held in the result format: the k-th one has k*n_frac fraction bits and needs k*n_word bits
+    n_frac = x.size * x.n_frac if x.n_frac >= 0 else x.n_frac
+    n_word = max(x.n_word + n_frac - x.n_frac, x.size * x.n_word + n_frac - x.size * x.n_frac)
     n_int = n_word - int(signed) - n_frac
     optimal_size = (signed, n_word, n_int, n_frac)
 
